@@ -176,12 +176,85 @@ def gen_lr(rnd, name):
     return header(name, lalr=True) + body + "\n"
 
 
+def gen_look2(rnd, name):
+    """k = 3..4 with alternation non-terminals inside the lookahead window: alternatives of A are
+    sequences of slots, a slot is a terminal or a two-way alternation non-terminal; lookahead strings
+    of different productions diverge and re-converge at different depths."""
+    alph = TERMS[:5]
+    nalt = rnd.randint(2, 4)
+    klen = rnd.randint(3, 4)
+    alt_nts = {}
+    alts = []
+    for i in range(nalt):
+        slots = []
+        for j in range(klen):
+            if rnd.random() < 0.35:
+                a, b = rnd.sample(alph, 2)
+                key = tuple(sorted((a, b)))
+                nt = alt_nts.setdefault(key, "Y%d" % len(alt_nts))
+                slots.append(nt)
+            else:
+                slots.append(lit(rnd, rnd.choice(alph)))
+        alts.append(" ".join(slots))
+    prods = ["%s: %s | %s;" % (nt, lit(rnd, k[0]), lit(rnd, k[1])) for k, nt in alt_nts.items()]
+    tail = ' "end"' if rnd.random() < 0.5 else ""
+    return header(name) + "S: A%s;\nA: %s;\n%s\n" % (tail, " | ".join(alts), "\n".join(prods))
+
+
+def gen_names(rnd, name, lalr=False):
+    """User non-terminals whose names look like parol's helper names (Opt/List/Group/Suffix with and
+    without numbers), each containing the construct that makes parol want exactly such a name, plus
+    productions with several optionals / repetitions / groups in a row and nested three deep."""
+    kinds = ["Opt", "List", "Group"]
+    base = rnd.choice(["S", "Item", "X"])
+    nts = []
+    lines = []
+    pool = list(TERMS)
+    rnd.shuffle(pool)
+    ti = [0]
+
+    def t():
+        x = pool[ti[0] % len(pool)]
+        ti[0] += 1
+        return lit(rnd, x)
+
+    def construct(kind, depth):
+        inner = t()
+        if depth > 0:
+            inner += " " + construct(rnd.choice(kinds), depth - 1)
+        if kind == "Opt":
+            return "[ %s ]" % inner
+        if kind == "List":
+            return "{ %s }" % inner
+        return "( %s | %s )" % (inner, t())
+
+    for i in range(rnd.randint(1, 3)):
+        kind = rnd.choice(kinds)
+        num = rnd.choice(["", "0", "1", "2"])
+        n = "%s%s%s" % (base, kind, num)
+        if n in nts:
+            continue
+        nts.append(n)
+        body = "%s %s %s" % (t(), construct(kind, rnd.randint(0, 2)), rnd.choice(["", t()]))
+        lines.append("%s: %s;" % (n, body.strip()))
+    # the production of `base` itself: several constructs in a row, the later ones nested
+    row = " ".join(construct(rnd.choice(kinds), rnd.randint(0, 2)) for _ in range(rnd.randint(2, 3)))
+    refs = " ".join(nts)
+    top = "%s: %s %s %s %s;" % (base, t(), row, refs, lit(rnd, "z"))
+    start = "S" if base == "S" else "S"
+    out = [top] + lines
+    if base != "S":
+        out.insert(0, "S: %s;" % base)
+    return header(name, lalr) + "\n".join(out) + "\n"
+
+
 def generate(out_dir, seed, counts):
     """counts: dict family -> n.  Returns list of file paths."""
     os.makedirs(out_dir, exist_ok=True)
     files = []
     fam = {"ebnf": gen_ebnf, "prefix": gen_prefix, "look": gen_look, "lr": gen_lr,
-           "ebnf_lr": lambda r, n: gen_ebnf(r, n, lalr=True)}
+           "ebnf_lr": lambda r, n: gen_ebnf(r, n, lalr=True), "names": gen_names, "look2": gen_look2,
+           "names_lr": lambda r, n: gen_names(r, n, lalr=True)}
     for f, n in counts.items():
         for i in range(n):
             rnd = random.Random("%s-%s-%d" % (seed, f, i))
